@@ -84,7 +84,10 @@ def run_check(prop, tier, seed, pl, args, t0):
 
 def conclude(prop, tier, seed, pl, results, extra, args, t0):
     base_path = os.path.join(ROOT, "baseline", f"{prop}.json")
-    baseline = json.load(open(base_path)) if os.path.exists(base_path) else None
+    baseline_all = json.load(open(base_path)) if os.path.exists(base_path) else None
+    baseline = None
+    if baseline_all is not None and (tier in baseline_all or "obligations" in baseline_all):
+        baseline = dict(obligations=baseline_all.get(tier, baseline_all.get("obligations", [])))
     kf_path = os.path.join(ROOT, "known_findings.json")
     known = json.load(open(kf_path)) if os.path.exists(kf_path) else {"findings": []}
     known_open = [k for k in known.get("findings", []) if k.get("property") == prop and k.get("status") == "open"]
@@ -148,7 +151,16 @@ def conclude(prop, tier, seed, pl, results, extra, args, t0):
 
     if args.write_baseline:
         os.makedirs(os.path.dirname(base_path), exist_ok=True)
-        json.dump(dict(property=prop, obligations=sorted(discharged_names)), open(base_path, "w"), indent=0)
+        newb = dict(baseline_all or {})
+        newb.pop("obligations", None)
+        newb["property"] = prop
+        newb[tier] = sorted(discharged_names)
+        sh = dict(newb.get("sha1", {}))
+        for f in functions:
+            if f.get("sha1"):
+                sh[f["function"]] = f["sha1"]
+        newb["sha1"] = sh
+        json.dump(newb, open(base_path, "w"), indent=0)
         print(f"baseline written: {len(discharged_names)} obligations")
 
     # ---- classify what is open
@@ -183,6 +195,10 @@ def conclude(prop, tier, seed, pl, results, extra, args, t0):
             continue
         if reproduced:
             violations.append(f"VIOLATION property={prop} replay={rp}")
+        elif (in_base and ob.get("status") in ("timeout", "unknown", "skipped", "error") and r is not None and r.get("sha1")
+              and (baseline_all or {}).get("sha1", {}).get(r.get("function")) == r.get("sha1")):
+            # the function's source is byte-identical to the one the baseline was proved on and the solver gave no model: solver instability, not a verdict
+            undecided.append(f"{nm}: {ob.get('status')} on source identical to the baseline's (solver budget / instability) - undecided, not a violation")
         elif in_base or ob.get("status") == "refuted":
             violations.append(f"VIOLATION property={prop} replay={rp} no-failing-input-found")
         else:
